@@ -410,6 +410,14 @@ theorem stream_roundtrip (proto : Bytes) (code : Nat) (hs : Dic) (parts : List B
       (streamHeaders_named proto code hte hcl).2.2, hchunk, List.append_assoc])
   exact ⟨_, i', hread, hdat, hlive, ⟨rfl, rfl, rfl, rfl, rfl⟩⟩
 
+/-- **refused_headers_no_response** (after the repair 9f1c7c1).  When the reader refuses the header block of a response (a
+field name that is no token, a line without colon, a block that breaks off: it closes the socket), the client does not
+report a response: code 0, socket error SOCKET_BAD_DATA, no body. -/
+theorem refused_headers_no_response (i : Inp) (c : Nat) (p : Bytes) (h : Dic) (i2 : Inp)
+    (hh : readResponseHead i = some (c, p, h, i2)) (hcl : i2.closed = true) :
+    (readResponse i).1.code = 0 ∧ (readResponse i).1.sockError = sBadData ∧ (readResponse i).1.body = [] := by
+  unfold readResponse; rw [hh]; simp [hcl]
+
 /-- **auto_stream_roundtrip** (after the repairs 75c75d0, 3e98c13).  A handler that answers an HTTP/1.1 request in pieces
 with `write(part)` and names neither a length nor a coding, with a status that can have a body: the library sends the pieces
 as chunks, announces `Transfer-Encoding: chunked` itself and ends the stream with the last chunk; the client returns the
